@@ -3,15 +3,23 @@
 # and record in seeded/<id>/meta.json which checks report it.  /repo must be clean before and is clean after.
 cd /verif
 [ -n "$(git -C /repo status --porcelain)" ] && { echo "/repo is not clean"; exit 3; }
+sel="$@"
 for d in seeded/*/; do
+  if [ -n "$sel" ]; then case " $sel " in *" $(basename $d) "*) ;; *) continue;; esac; fi
   id=$(basename $d); prop=${id%-*}
   if ! git -C /repo apply --check "$PWD/$d/patch.diff" 2>/dev/null; then echo "$id: patch does not apply to /repo HEAD"; continue; fi
   git -C /repo apply "$PWD/$d/patch.diff"
   caught=""; lines=""
+  tmp=$(mktemp -d)
   for i in 01 02 03 04 05 06 07 08 09 10 11 12 13 14 15 16 17 18 19 20; do
-    out=$(./check C$i 2>&1); rc=$?
-    if [ $rc -ne 0 ]; then caught="$caught C$i(rc=$rc)"; fi
+    ( ./check C$i > $tmp/C$i.log 2>&1; echo $? > $tmp/C$i.rc ) &
   done
+  wait
+  for i in 01 02 03 04 05 06 07 08 09 10 11 12 13 14 15 16 17 18 19 20; do
+    rc=$(cat $tmp/C$i.rc)
+    if [ "$rc" != "0" ]; then caught="$caught C$i(rc=$rc)"; fi
+  done
+  rm -rf $tmp
   git -C /repo checkout -q -- .
   echo "$id: caught by:$caught"
   /venv/bin/python - "$d/meta.json" "$caught" "$(git -C /repo rev-parse --short HEAD)" <<'PY'
@@ -23,5 +31,5 @@ m["rechecked"] = {"repo_head": head, "date": time.strftime("%Y-%m-%d"), "how": "
 json.dump(m, open(p, "w"), indent=1)
 PY
 done
-for i in 01 02 03 04 05 06 07 08 09 10 11 12 13 14 15 16 17 18 19 20; do ./check C$i >/dev/null 2>&1; done
+for i in 01 02 03 04 05 06 07 08 09 10 11 12 13 14 15 16 17 18 19 20; do ./check C$i >/dev/null 2>&1 & done; wait
 git -C /repo status --porcelain
